@@ -14,7 +14,7 @@ except Exception:
     pass
 m={
  "version":1,
- "setup_cmd":"cd /verif/govc && GOFLAGS=-mod=mod GOPROXY=off GOSUMDB=off GOTOOLCHAIN=local go build -o /verif/bin/govc .",
+ "setup_cmd":"cd /verif/govc && GOFLAGS=-mod=mod GOPROXY=off GOSUMDB=off GOTOOLCHAIN=local go build -o /verif/bin/govc.bin .",
  "hooks":{
   "guard":"verif",
   "enable":"-tags verif (contract files contracts_verif.go are comment-only and carry //go:build verif; govc loads /repo with the tag on)",
